@@ -12,7 +12,7 @@ LEAN = True  # cases are distinct by construction; see engine.Acc
 RULE = (
     "triples D1 . X . '\\n' . D2 with D1 in 5 well-formed documents ending in a complete block, D2 in 6 well-formed documents "
     "starting with '@type{', X = every token sequence over the splitter alphabet up to the bound, plus every prefix and every "
-    "single-token edit of 6 valid blocks; each text is parsed splitter-only and with the default stack and compared with the "
+    "single-token edit of 9 valid blocks, size-scaled malformed middles, and middles padded so that the suffix's header lies across offsets 4096 .. 2^20 at every position; each text is parsed splitter-only and with the default stack and compared with the "
     "parses of D1 and D2 alone. Non-trivial = X non-empty and the parse of the triple has a failed block or more blocks than "
     "D1 and D2 together (distinct by X)."
 )
@@ -80,6 +80,21 @@ X_FAMILIES = {
 X_SIZES = {"quick": [1, 10, 100, 990, 1000, 1010, 3000], "thorough": [1, 10, 100, 990, 1000, 1010, 3000, 10**4, 10**5]}
 
 
+WINDOWS = [4096, 8192, 65536, 1 << 20]  # the sizes a chunked scan / read would use
+X_WINDOW_KINDS = {"open": '@misc{xbroken, note = "never closed {\n', "text": "stray } text\n"}
+
+
+def x_window(i, kind, W, k):
+    """A middle such that the suffix's first header starts k characters before offset W of the text (k = 0: at it;
+    the splitter itself scans the text behind one extra newline, hence k = -1 .. 10 covers both countings)."""
+    d1 = D1S[i]
+    head = X_WINDOW_KINDS[kind]
+    line = "y" * 78 + "\n"
+    room = W - k - len(d1) - len(head) - 1  # - 1: the newline that ends the middle
+    n, r = divmod(room, len(line))
+    return head + line * n + "z" * r
+
+
 def bounds(tier):
     return {
         "alphabet": spaces.SIGMA_DOC,
@@ -96,6 +111,7 @@ def shards(tier):
     out = [("seq", s) for s in seq_shards(spaces.SIGMA_DOC, 4 if tier == "quick" else 5)]
     out += [("xblock", i) for i in range(len(X_BLOCKS))]
     out += [("xfam", name) for name in sorted(X_FAMILIES)]
+    out += [("xwindow", W) for W in WINDOWS]
     return out
 
 
@@ -212,6 +228,16 @@ def run_shard(shard, tier, acc):
             for i in (0, 3, 4):
                 for j in (0, 1, 4, 5):
                     check_triple(i, x, j, acc, case={"d1": i, "xfam": [shard[1], n], "d2": j})
+    elif kind == "xwindow":
+        W = shard[1]
+        for xkind in sorted(X_WINDOW_KINDS):
+            for k in range(-1, 11):
+                for i in (0, 3):
+                    for j in (0, 1, 8):
+                        acc.count("xwindow_cases")
+                        x = x_window(i, xkind, W, k)
+                        assert len(D1S[i] + x + "\n") == W - k
+                        check_triple(i, x, j, acc, case={"d1": i, "xwindow": [xkind, W, k], "d2": j})
     elif kind == "xblock":
         toks = spaces.tokenize(X_BLOCKS[shard[1]])
         xs = ["".join(toks[:n]) for n in range(len(toks) + 1)]
@@ -224,14 +250,14 @@ def run_shard(shard, tier, acc):
 
 
 def replay(case, acc):
-    x = case["x"] if "x" in case else X_FAMILIES[case["xfam"][0]](case["xfam"][1])
+    x = case["x"] if "x" in case else (x_window(case["d1"], *case["xwindow"]) if "xwindow" in case else X_FAMILIES[case["xfam"][0]](case["xfam"][1]))
     check_triple(case["d1"], x, case["d2"], acc, case)
 
 
 def unit_test(case):
     return (
         "import bibtexparser\n"
-        f"d1, x, d2 = {D1S[case['d1']]!r}, {case.get('x', case.get('xfam'))!r}, {D2S[case['d2']]!r}\n"
+        f"d1, x, d2 = {D1S[case['d1']]!r}, {case.get('x', case.get('xfam', case.get('xwindow')))!r}, {D2S[case['d2']]!r}\n"
         "P = bibtexparser.parse_string(d1 + x + '\\n' + d2).blocks\n"
         "A = bibtexparser.parse_string(d1).blocks; B = bibtexparser.parse_string(d2).blocks\n"
         "assert P[:len(A)] == A\n"
